@@ -230,6 +230,44 @@ func evalP7env(args []string) string {
 			return "ORACLE-FAIL:recovered-content-differs"
 		}
 	}
+	// one parsed object serves every recipient, any number of times and in any order (also after a failed attempt
+	// by a party that is not a recipient): decrypting does not consume or alter the parsed envelope
+	{
+		p7, err := x509.ParsePKCS7(der)
+		if err != nil {
+			return "ORACLE-FAIL:parse"
+		}
+		openOn := func(i int) ([]byte, error) {
+			if args[1] == "rsa" {
+				c, k := rsaParty(i)
+				return p7.Decrypt(c, k)
+			}
+			c, k := sm2Party(i)
+			return p7.DecryptSM2(c, k, mode)
+		}
+		order := []int{0, n, 0}
+		for i := n - 1; i >= 0; i-- {
+			order = append(order, i)
+		}
+		for _, i := range order {
+			got, err := openOn(i)
+			if i == n {
+				if err == nil {
+					return "ORACLE-FAIL:non-recipient-decrypts"
+				}
+				continue
+			}
+			if err != nil {
+				return "ORACLE-FAIL:recipient-cannot-decrypt-again"
+			}
+			if !bytes.Equal(got, content) {
+				return "ORACLE-FAIL:recovered-content-differs-on-reuse"
+			}
+			for j := range got { // the caller owns what it got
+				got[j] ^= 0xff
+			}
+		}
+	}
 	// the same envelope with its encrypted content in 2 and in 3 OCTET STRING segments (BER streaming form)
 	for _, parts := range []int{2, 3} {
 		ch, ok := chunkedEnvelope(der, parts)
